@@ -2,6 +2,7 @@ package driver
 
 import (
 	"bytes"
+	"context"
 	"encoding/json"
 	"fmt"
 	"io"
@@ -500,7 +501,8 @@ type netBody struct {
 	what   string
 	plan   []ReadStep
 	unit   int
-	left   int // bytes of the current step not handed over yet (-1: step not started)
+	left   int             // bytes of the current step not handed over yet (-1: step not started)
+	ctx    context.Context // response bodies: the context of the request, which governs reading the body as well
 }
 
 func newNetBody(bs []byte, what string) *netBody {
@@ -519,6 +521,9 @@ func newPlannedBody(bs []byte, what string, p *ReadPlan) *netBody {
 func (b *netBody) Read(p []byte) (int, error) {
 	if b.closed {
 		return 0, fmt.Errorf("http: read on closed %s body", b.what)
+	}
+	if b.ctx != nil && b.ctx.Err() != nil {
+		return 0, b.ctx.Err()
 	}
 	if len(p) == 0 {
 		return 0, nil
